@@ -785,6 +785,16 @@ func (w *world) doBackup(p op) {
 	case 1:
 		// incremental: everything changed after `since` must be in the archive
 		since := time.Now().Add(-time.Duration(1+p.Min) * time.Second)
+		if e := w.engine(); e != nil && p.Min%2 == 1 {
+			// every other time: just before the modification time of one of the files (same second, sub-second
+			// distance) - the boundary the statement "every file changed after t" is about
+			if sts := e.FileStore.Stats(); len(sts) > 0 {
+				if fi, err := os.Stat(sts[(p.Min/2)%len(sts)].Path); err == nil {
+					since = fi.ModTime().Add(-time.Millisecond)
+					r.Probe("probe_incremental_since_just_before_a_file")
+				}
+			}
+		}
 		inv := w.stamp()
 		// files of the shard before the backup (the backup itself snapshots the cache into a new file,
 		// which is newer than since by construction and may or may not be listed here)
